@@ -45,7 +45,7 @@ var c02Scenarios = []string{
 	"valid", "valid", "valid",
 	"revoked-credential", "expired-credential", "foreign-subject-credential", "unknown-scope", "unfulfilled-scope",
 	"tamper-signature", "tamper-submission-definition", "tamper-submission-path", "tamper-scope", "tamper-claim",
-	"delayed-past-validity", "duplicate-delivery", "other-audience",
+	"delayed-past-validity", "duplicate-delivery", "other-audience", "other-audience-extended",
 	"openid4vp-valid", "openid4vp-forged-first-presentation", "openid4vp-forged-first-presentation",
 	"reissued-valid", "reissued-overlong", "reissued-overlong", "reissued-stale", "reissued-not-yet-valid", "reissued-other-domain", "reissued-reused-nonce",
 	"override-iss", "override-client_id", "override-scope", "override-exp", "override-iat", "override-sub", "override-active", "override-cnf",
@@ -416,6 +416,27 @@ func c02Body(s *simkit.Sim, rc *simkit.RunCtx) {
 		s.Info.Inc("reissued:" + scenario)
 		rc.Nontrivial = true
 		return // (virtual time has moved on: the introspection schedule below belongs to the other scenarios)
+	case "other-audience-extended":
+		// the URL of vendorA2's server extends vendorA's: a presentation addressed to vendorA2 presented to vendorA
+		if sample.Issued {
+			tr2 := cl.RequestServiceToken("vendorB", "https://nodea.sim/oauth2/vendorA2", scope, tokenType, true)
+			var cap2 []byte
+			for _, r := range w.HTTP.Requests() {
+				if r.Method == "POST" && strings.HasSuffix(r.Path, "/oauth2/vendorA2/token") {
+					cap2 = r.ReqBody
+				}
+			}
+			if tr2.Code == 200 && cap2 != nil {
+				code, body := as.CallForm("POST", "/oauth2/vendorA/token", string(cap2))
+				if world.IsTokenResponse(code, body) {
+					s.Fail("C02.issue", "issued:other-audience-extended", "a presentation addressed to vendorA2's server was honoured by the token endpoint of vendorA")
+					return
+				}
+				s.Info.Inc("other-audience-extended-refused")
+			} else {
+				s.Info.Inc("other-audience-extended-not-reached")
+			}
+		}
 	case "other-audience":
 		if captured != nil {
 			code, body := as.CallForm("POST", "/oauth2/vendorA2/token", string(captured))
